@@ -160,6 +160,14 @@ void raw_sendto(int fd, Addr dst, const Bytes &b);
 void raw_send_from(int node, Addr src, Addr dst, const Bytes &b);   // spoofed / socket-less injection
 bool raw_recv(int fd, Datagram &out);
 
+// raw stream peers (harness code speaking TCP through the same simulated kernel)
+int  raw_listen(int node, Addr local);                 // listening socket, -1 on error
+int  raw_accept(int lfd);                              // accepted fd or -1 if nothing pending
+int  raw_connect(int node, Addr dst);                  // non-blocking connect; usable once fd_writable()
+bool raw_stream_read(int fd, Bytes &out, bool *eof = nullptr);   // appends whatever is readable; false if nothing
+void raw_stream_write(int fd, const Bytes &b);
+void raw_close(int fd);
+
 // real time for the harness (clock_gettime is simulated)
 uint64_t real_ns();
 
